@@ -257,6 +257,54 @@ func runC14(c *Ctx) {
 			}
 		}
 
+		// ---------------- the same text read twice under the same configuration, the first result edited in between ----------------
+		// "always yields the same result": a result handed to a caller belongs to the caller; whatever the
+		// caller does to it, a later assembly (or load) of the same text must still yield the original
+		{
+			ac := asm.Config{Dialect: asm.D94, CoreSize: 8000, Length: 100, Processes: 8000, Distance: 100}
+			gc := gcfg(ac, g.ICWS94)
+			code, start := genWarrior(r, int64(r.Intn(7616)), asm.D94, ac.CoreSize, 1+r.Intn(8))
+			text := strings.Join(asm.PrintLoadFile(code, start, asm.D94, ac.CoreSize, r.Intn(2), r), "\n") + "\n"
+			if r.Chance(1, 2) {
+				text = ";name twice\n;author me\n;strategy s\n" + text
+			}
+			for _, how := range []string{"assembled", "loaded"} {
+				read := func() (g.WarriorData, error) {
+					if how == "assembled" {
+						return g.CompileWarrior(strings.NewReader(text), gc)
+					}
+					return g.ParseLoadFile(strings.NewReader(text), gc)
+				}
+				var first, second g.WarriorData
+				var e1, e2 error
+				var snap g.WarriorData
+				if p, msg := try(func() {
+					first, e1 = read()
+					snap = copyWD(&first)
+					for i := range first.Code {
+						first.Code[i] = g.Instruction{Op: g.DAT, OpMode: g.X, AMode: g.IMMEDIATE, A: 7, BMode: g.IMMEDIATE, B: 7}
+					}
+					if r.Bool() && len(first.Code) > 0 {
+						first.Code = append(first.Code[:len(first.Code)-1], g.Instruction{Op: g.NOP}, g.Instruction{Op: g.NOP})
+					}
+					first.Name, first.Start = "edited", 0
+					second, e2 = read()
+				}); p {
+					c.Violate("C14:panic:"+panicSite(msg), msg, map[string]interface{}{"text": text, "how": how})
+					return
+				}
+				if e1 != nil || e2 != nil {
+					c.Violate("C14:twice:error", fmt.Sprintf("a canonical load file could not be %s: %v / %v", how, e1, e2), map[string]interface{}{"text": text})
+					return
+				}
+				if !sameWD(second, snap) {
+					c.Violate("C14:alias:result-shared-between-calls", fmt.Sprintf("the same text was %s twice under the same configuration; the caller edited the first result in place and the second result differs from the first as it was returned", how), map[string]interface{}{"text": text, "how": how})
+					return
+				}
+				c.Inc("read_twice_first_result_edited_checks")
+			}
+		}
+
 		// ---------------- cross-simulator history probe (sequential) ----------------
 		// a simulator with a LARGE process limit is run and Reset, then one with a SMALL limit runs a
 		// splitting warrior: its outcome must be the reference outcome, whatever the first one left behind
